@@ -66,8 +66,11 @@ pub trait RleBytes {
             r matches Ok((n, b)) ==> bytes_dec::<C>(data@) == Some((n, b@)) && n <= data.len();
 }
 pub trait RleStr {
+    /// the skip path need not validate UTF-8; all C35/C39 ask of it: it stays inside the buffer and agrees with
+    /// the checked decoder wherever that one accepts
     fn value_len<C: Codec>(data: &[u8]) -> (r: Option<usize>)
-        ensures r == (match bytes_dec::<C>(data@) { Some((n, _)) => Some(n), None => None::<usize> });
+        ensures r matches Some(n) ==> n <= data.len(),
+            str_dec::<C>(data@) matches Some((n, _)) ==> r == Some(n);
     fn try_unpack<C: Codec>(data: &[u8]) -> (r: Result<(usize, &str), PackError>)
         ensures
             // C39: the checked decoder only yields valid UTF-8 taken from inside the buffer
